@@ -26,14 +26,14 @@ PROPS = {
         note="P prime by certificate; group axioms of the spec law are Lean-checked (lean/GroupLaw.lean) when ./check --setup has run, otherwise listed as assumed. secp256k1.inv is used through its contract (proved in the ints layer when built, else assumed).",
         design_ref="DESIGN.md section 8 C18"),
     "C07": dict(level="proof", trusted=_COMMON_TRUST, assumptions=[
-        "primality by certificate: Pocklington certificates (certs/primes.json, verified on every run by the closed fact primes.certificates) for secp256k1 P and N, alt_bn128 p and r, BLS12-381 p and r (the 448-bit factor of h2, used only for the point count of the twist, passes Miller-Rabin to 40 bases without a certificate)",
+        "primality by certificate: Pocklington certificates (certs/primes.json, verified on every run by the closed fact primes.certificates) for secp256k1 P and N, alt_bn128 p and r, BLS12-381 p and r and the 448-bit prime factor of the twist cofactor h2",
         "field classes implement field arithmetic (proved separately: C08)"],
         text="add/double/neg/eq/is_on_curve/is_inf of the two reference modules (affine, None = infinity) and of the two optimized modules (projective) are proved on every path to compute the affine group law for every field of characteristic > 3 (so for base curve, twist and E(F_p^12) at once); multiply in all four modules is proved by induction to be the n-fold sum for every n >= 0; the abelian-group axioms of the spec law are the Lean lemma L-GROUP; generators, coefficients, moduli, orders are compared with pinned standard literals and their family derivations (eval).",
         note="Primality of the standard moduli/orders by certificate and the field classes are fields (C08). The twist clauses: image on E(F_p^12) for every twist point (units *.twist), optimized = reference (units twist.agree.*), embedding/injectivity by the closed fact twist.embedding + Lean scaling lemmas.",
         design_ref="DESIGN.md section 8 C07"),
     "C08": dict(level="proof", trusted=_COMMON_TRUST + [
         "ModInt reading: integers in the field classes are interpreted through the ring homomorphism Z -> Z/p with a tracked 'reduced' flag (DESIGN section 4 L1)"],
-        assumptions=["class invariant: field_modulus is prime (for user instantiations); for the real curves: primality by certificate: Pocklington certificates (certs/primes.json, verified on every run by the closed fact primes.certificates) for secp256k1 P and N, alt_bn128 p and r, BLS12-381 p and r (the 448-bit factor of h2, used only for the point count of the twist, passes Miller-Rabin to 40 bases without a certificate)",
+        assumptions=["class invariant: field_modulus is prime (for user instantiations); for the real curves: primality by certificate: Pocklington certificates (certs/primes.json, verified on every run by the closed fact primes.certificates) for secp256k1 P and N, alt_bn128 p and r, BLS12-381 p and r and the 448-bit prime factor of the twist cofactor h2",
                      "class invariant (precondition on user instantiations): the modulus polynomial is irreducible and its integer coefficients are 0 or not multiples of p; for the eight real extension classes irreducibility is the closed fact fields.modulus-irreducible (Rabin's test on the coefficients and prime read from the classes, every run)",
                      "FQP.inv: the quotient computed by (optimized_)poly_rounded_div enters only through its contract (length, degree, leading coefficient); the exit fact 'low != 0 unless self = 0' is the Lean lemma Euclid.lean:inv_exit_ne_zero applied to the proved invariants",
                      "FQ.__eq__/__lt__ with an int operand compare the canonical representative with the integer as given (recorded reading, DESIGN section 8 C08)"],
@@ -121,10 +121,10 @@ PROPS = {
         design_ref="DESIGN.md section 8 C09"),
     "C10": dict(level="proof", trusted=_COMMON_TRUST, assumptions=[
         "square-root helpers: sqrt_division_FQ / sqrt_division_FQ2 are proved from the source (units swu.sqrt_division_FQ.complete, swu.sqrt_division_FQ2.complete) to decide squareness exactly and to return r with r^2 v = u, resp. r^2 v = -u / r^2 v = u chk with chk^4 = -1; the number-theoretic inputs are Lean-checked (Euler's criterion, exponent bookkeeping) and the table facts T1-T3 are computed on the real constants (closed fact swu.G2.root-tables); the 'SWU failure' raise is then proved unreachable by executing the eta loop of the real code",
-        "Hasse's theorem + primality of r and of the 448-bit factor of h2 (via C17: cofactor clearing lands in the prime-order subgroup; point counts and the structure of the G1 cofactor part are computed facts)",
+        "Hasse's theorem (via C17; r and the 448-bit factor of h2 are prime by certificate: cofactor clearing lands in the prime-order subgroup; point counts and the structure of the G1 cofactor part are computed facts)",
         "the RFC text is not available offline: A', B', Z, the isogeny tables and h_eff are pinned literals, tied to the RFC by the closed facts 'the isogeny maps E' into E' (polynomial identity, eval), 'g(B/(ZA)) is a square', 'Z non-square' and by the RFC vectors in tests/bls"],
         text="optimized_swu_G1/G2 are executed symbolically on every path (exceptional / regular x square / non-square x sign flip, and for G2 every candidate of the eta loop) over an abstract field with SYMBOLIC A', B', Z and eta table: the result is a finite point of E' whose x is the RFC's x1 resp. x2 = Z u^2 x1, with (y/z)^2 = g(x/z) and sgn0(y/z) = sgn0(u), and the 'SWU failure' raise is unreachable; the isogeny maps are proved to evaluate x_num/x_den, y*y_num/y_den for symbolic tables (Horner loops); map_to_curve and hash_to_G1/G2 are proved to be the RFC composition clear_cofactor(map(u0) + map(u1)) over hash_to_field (C15); sgn0 is proved against RFC 9380 4.1 (C14 unit).",
-        note="Square-root completeness lemmas are assumptions; everything the code tests a posteriori is proved without them.",
+        note="Square-root completeness is proved from the source (units swu.sqrt_division_*.complete) with Lean-checked number theory and computed table facts; Hasse's theorem is the imported mathematics.",
         design_ref="DESIGN.md section 8 C10"),
     "C05": dict(level="proof", trusted=_COMMON_TRUST, assumptions=["A-PAIRING: e_T(Q,P) = MillerSpec_T(Q,P)^((p^12-1)/r) is bilinear and non-degenerate on G2 x G1 for the pinned T of each curve and independent of the (binary vs signed-digit) addition chain — ASSUMED (Miller 2004, Vercauteren 2010); no contract within reach can prove it (needs divisor theory not in Mathlib). Bounded stand-in: run-time monitor pairing_bilinearity on the real code (listed under bounded_standins, never counted in discharged)",
                      "r prime (certificate), L-CYCLIC: m.Q != O for 0 < m < r (linefunc preconditions inside the Miller loop)",
@@ -140,7 +140,7 @@ PROPS = {
         design_ref="DESIGN.md section 8 C12"),
     "C17": dict(level="proof", trusted=_COMMON_TRUST, assumptions=[
         "Hasse's theorem (|#E(F_q) - q - 1| <= 2 sqrt q; classical, not in Mathlib): with it #E(F_p) = h1 r and #E'(F_p2) = h2 r are FORCED by computed facts on the real code (bls.hasse-G1: r | #E and one multiple of r in the interval; bls.order-twist: a point of E'(F_p2) of order divisible by c r > 4p + 2, c the 448-bit prime factor of h2)",
-        "r prime by certificate; the 448-bit factor c of h2 is a strong probable prime to 40 bases (no certificate: c - 1 has a 268-bit composite cofactor two levels down)"],
+        "r and the 448-bit factor c of h2 prime: Pocklington certificates (certs/primes.json) verified on every run inside the closed facts primes.certificates and bls.order-twist"],
         text="subgroup_check is proved (over the contracts of multiply and is_inf) to return True exactly when r.abs(P) = O for the pinned r, for any representative; cofactor clearing is proved to be multiplication by the pinned RFC 9380 effective cofactors; the cofactor constants are derived from the curve parameter x by eval. That r.(kG+T) = O iff T = O for cofactor-torsion T is Lean lemma subgroup_check_exact with gcd(h, r) = 1 by eval.",
         note="'Maps every curve point into the subgroup': the point counts are forced by Hasse's theorem plus computed facts; the structure of the G1 cofactor part (exponent |1 - x|, RFC 9380 section 8.8.1) is the computed fact bls.struct-G1 (two independent points of order l for each prime l | x - 1); Lean Cofactor.lean then gives r.(h_eff.P) = O.",
         design_ref="DESIGN.md section 8 C17"),
